@@ -421,6 +421,10 @@ class RandomCharts:
                 ops.append(log("v" + v, var(v)))
             elif x < 0.8:
                 ops.append(send(r.choice(evs)))
+            elif x < 0.84 and depth < 2 and vars_ and getattr(self, "allow_foreach", False):
+                v = r.choice(vars_)
+                self.used_foreach = True
+                ops.append(foreach("arr1", [2, 0, 1], v, self.content(evs, vars_, depth + 1)))
             elif x < 0.95 and depth < 2 and vars_:
                 v = r.choice(vars_)
                 arms = [(cmp_(r.choice(["<", "==", ">="]), var(v), lit(r.randint(0, 2))), self.content(evs, vars_, depth + 1))]
@@ -450,6 +454,9 @@ class RandomCharts:
             root.data = [(v, lit(0)) for v in vars_]
             if r.random() < 0.25:
                 binding = "late"
+        # <foreach> over a constant array (the item variable is a root variable, bound from the start)
+        self.allow_foreach = bool(vars_)
+        self.used_foreach = False
         evs = ["e", "f", "g", "a.b"]
         # histories
         for n in nodes:
@@ -495,6 +502,10 @@ class RandomCharts:
                 n.onexit.append(self.content(evs, vars_))
             n.tlast = r.random() < 0.3
         c = Chart(root, binding=binding, vars_=vars_, cid=cid, tags=["R"])
+        if getattr(self, "used_foreach", False):
+            c.arrays = {"arr1": [2, 0, 1]}
+            c.tags.append("foreach")
+            self.used_foreach = False
         return c
 
     def word(self, chart, maxlen=8):
